@@ -6,6 +6,14 @@ ALL = ["C%02d" % i for i in range(1, 20)]
 
 # id -> (technique, level text, level note, design ref)
 CLAIMED = {
+ "C12": ("differential against the reference parser: the library's text vs. an independent canonical printer's text of the same fields, both compiled by apparmor_parser and compared as automata (rapid-generated rule structs, merged+formatted blocks, rules printed from generated logs)",
+         "Generated rule structs of every kind AppArmor 3 knows, blocks after Merge/Sort/Format, and rules printed from generated log records are wrapped in a stub profile: the reference parser must accept the library's text and compile it (-M abi/3.0) to the same policy - attachment, policydb and file automata, exec table - as the canonical spelling of the same fields written by an independent printer. Rules printed from well-formed logs must load whatever their values are. Counts of judged / discarded cases are reported per kind.",
+         "Trusts apparmor_parser 3.0.8 as judge of 'same access, subject, conditions, peer and target' and the canonical printer in c12_test.go. A case whose canonical text the reference rejects has values that are not valid for AppArmor 3 and is discarded (counted). Two listed known findings (unix protocol=, ix with target) are excluded from the log generator and kept under fixed witnesses.",
+         "DESIGN.md §2 C12"),
+ "C16": ("rapid property-based testing of generated log records through the aa-log --rules pipeline; coverage of each record judged by the reference parser's compiled file automaton (file classes) and by the rule fields (other classes)",
+         "Generated kernel / dbus-daemon records of every class the tool maps, with names drawn from path families around every generalisation rewrite (home dirs, lib and bin dirs incl. shells and look-alikes, multiarch triples, /proc pids and tids, pci and block devices, udev data, uuid / hex / decimal runs at every threshold length, case variants) go through logs.New + ParseToProfiles + Merge/Sort/Format; for file, exec and link records the generated rules are compiled by the reference parser over the shipped tunables and the recorded name must be granted the requested permissions in the owner or other half according to fsuid/ouid; for the other classes the recorded values must be in a rule of the right kind and qualifier.",
+         "Trusts apparmor_parser 3.0.8 + the shipped tunables and the DFA interpreter (self-tested); names under /att/ (attach_disconnected.path, a disabled builder) and shared objects right under a lib directory (documented noise, C14) are outside the generator; pids are at most pid_max. One listed known finding (exec record with a target) is excluded and kept under a fixed witness.",
+         "DESIGN.md §2 C16"),
  "C07": ("rapid property-based testing of generated directive arguments against independent models (dbus predicate, exec language equality judged by the reference parser, stack line model) plus a sweep of real builds for leftover directives",
          "Real builds (30 cells thorough, 4 quick) are swept for surviving '#aa:' markers. Generated dbus directives are read back by an independent tokenizer and checked against the predicate of docs/development/dbus.md (bus, bind, path, interfaces, directions, peer label), every 5th case also by the reference parser. Generated profile sets exercise exec (1-3 targets, 7 transition spellings: the generated rules must compile to the same file automaton as the targets' own @{exec_path}) and stack (1-3 stacked profiles, X and non-X, bodies with look-alike rules: line model of what is inserted, where, in which order), each expanded four times in one process.",
          "Trusts the tokenizer/predicate and the stack line model in c07_test.go, apparmor_parser 3.0.8 for exec language equality; stacked bodies in the line model hold no directives of their own (directives inside stacked profiles are covered by the leftovers sweep on the real systemd profiles).",
